@@ -233,3 +233,44 @@ func ExactMulDiv64(x, y, d uint64) (uint64, bool) {
 	p.Quo(p, new(big.Int).SetUint64(d))
 	return p.Uint64(), p.IsUint64()
 }
+
+// ---------------------------------------------------------------------------
+// non-forking boolean helpers: under the engine these build one term instead of branching (harness oracles
+// written with && / || fork the exploration at every operand).
+
+func And(a, b bool) bool     { return a && b }
+func Or(a, b bool) bool      { return a || b }
+func Not(a bool) bool        { return !a }
+func Implies(a, b bool) bool { return !a || b }
+
+// B2I returns 1 if c else 0 (as one term).
+func B2I(c bool) int {
+	if c {
+		return 1
+	}
+	return 0
+}
+
+// IteInt returns a if c else b (as one term).
+func IteInt(c bool, a, b int) int {
+	if c {
+		return a
+	}
+	return b
+}
+
+// IteU64 returns a if c else b (as one term).
+func IteU64(c bool, a, b uint64) uint64 {
+	if c {
+		return a
+	}
+	return b
+}
+
+// IteByte returns a if c else b (as one term).
+func IteByte(c bool, a, b byte) byte {
+	if c {
+		return a
+	}
+	return b
+}
